@@ -3,13 +3,84 @@ package main
 // Deciding a check from solved obligations: VIOLATION / KNOWN-FINDING lines, evidence file.
 
 import (
+	"bytes"
+	"context"
 	"encoding/json"
 	"fmt"
 	"os"
+	"os/exec"
 	"path/filepath"
 	"sort"
 	"strings"
+	"time"
 )
+
+// runStandin runs one bounded stand-in against the repository under check (build overlay, nothing written there).
+func runStandin(eng *Engine, sd BoundedStandin, tier, prop, replayDir string, openKF map[string]KnownFinding) (res map[string]any, violations []string, known []string, fatal string) {
+	repo := eng.repo
+	tmp, err := os.MkdirTemp("", "govc-standin")
+	if err != nil {
+		return nil, nil, nil, err.Error()
+	}
+	defer os.RemoveAll(tmp)
+	ov, _ := json.Marshal(map[string]any{"Replace": map[string]string{filepath.Join(repo, sd.PkgDir, "zz_govc_standin_test.go"): sd.Test}})
+	ovFile := filepath.Join(tmp, "ov.json")
+	os.WriteFile(ovFile, ov, 0o644)
+	ctx, cancel := context.WithTimeout(context.Background(), 30*time.Minute)
+	defer cancel()
+	cmd := exec.CommandContext(ctx, "go", "test", "-v", "-overlay", ovFile, "-vet=off", "-count=1", "-timeout", "25m", "-run", sd.Run, ".")
+	cmd.Dir = filepath.Join(repo, sd.PkgDir)
+	cmd.Env = append(os.Environ(), "GOFLAGS=-mod=mod", "GOPROXY=off", "GOSUMDB=off", "GOTOOLCHAIN=local", "VERIF_TIER="+tier)
+	var out bytes.Buffer
+	cmd.Stdout, cmd.Stderr = &out, &out
+	t0 := time.Now()
+	_ = cmd.Run()
+	log := out.String()
+	res = map[string]any{"name": sd.Name, "bounded": true, "bound": sd.Bound, "stands_in_for": sd.Covers, "test": sd.Test, "secs": round2(time.Since(t0).Seconds())}
+	summary := ""
+	var fails, knownLines []string
+	for _, l := range strings.Split(log, "\n") {
+		l = strings.TrimSpace(l)
+		switch {
+		case strings.HasPrefix(l, "GOVC-BOUNDED: FAIL "):
+			fails = append(fails, strings.TrimPrefix(l, "GOVC-BOUNDED: FAIL "))
+		case strings.HasPrefix(l, "GOVC-BOUNDED: KNOWN "):
+			knownLines = append(knownLines, strings.TrimPrefix(l, "GOVC-BOUNDED: KNOWN "))
+		case strings.HasPrefix(l, "GOVC-BOUNDED: cases="):
+			summary = strings.TrimPrefix(l, "GOVC-BOUNDED: ")
+		}
+	}
+	if summary == "" {
+		return res, nil, nil, "bounded stand-in " + sd.Name + " did not run to its end:\n" + trunc2(log, 1500)
+	}
+	res["summary"] = summary
+	res["failing_cases_shown"] = len(fails)
+	for _, k := range knownLines {
+		f := strings.Fields(k) // <mode> <class> failing=N passing=M
+		if len(f) < 2 {
+			continue
+		}
+		name := "bounded:" + prop + ":" + sd.Name + ":" + f[0] + ":" + f[1]
+		if kf, ok := openKF[name]; ok {
+			known = append(known, fmt.Sprintf("KNOWN-FINDING: property=%s %s — %s (%s; input: %s)", prop, name, kf.What, strings.Join(f[2:], " "), kf.Input))
+		} else {
+			fails = append(fails, "class "+f[0]+" "+f[1]+" ("+strings.Join(f[2:], " ")+") is not a listed finding")
+		}
+	}
+	res["known_classes"] = knownLines
+	if len(fails) > 0 {
+		path := filepath.Join(replayDir, "bounded_"+sd.Name+".txt")
+		var b strings.Builder
+		fmt.Fprintf(&b, "property: %s\nbounded stand-in: %s\nbound: %s\nrun: /verif/replay/inpkg.sh %s %s '%s'\n\nfailing cases on the real code (first ones):\n", prop, sd.Name, sd.Bound, sd.PkgDir, sd.Test, sd.Run)
+		for _, f := range fails {
+			b.WriteString("  " + f + "\n")
+		}
+		b.WriteString("\n" + summary + "\n")
+		os.WriteFile(path, []byte(b.String()), 0o644)
+		violations = append(violations, fmt.Sprintf("VIOLATION property=%s replay=%s obligation=bounded:%s:%s status=failing-input cases=%d", prop, path, prop, sd.Name, len(fails)))
+	}
+	return res, violations, known, ""
+}
 
 func report(eng *Engine, prop, tier string, seed int, verif, outDir string, cfg *PropConfig, obls, covers []*Obligation,
 	funcs []string, abstracted map[string][]string, calleeContracts map[string]bool, encErrors, undecidedClauses, notes []string,
@@ -95,6 +166,20 @@ func report(eng *Engine, prop, tier string, seed int, verif, outDir string, cfg 
 		}
 		violations = append(violations, line)
 	}
+	var standinRes []any
+	for _, sd := range cfg.Standins {
+		res, vs, kn, fatal := runStandin(eng, sd, tier, prop, replayDir, openKF)
+		if fatal != "" {
+			fmt.Println("govc:", fatal)
+			return 2
+		}
+		standinRes = append(standinRes, res)
+		for _, k := range kn {
+			fmt.Println(k)
+			knownHit = append(knownHit, k)
+		}
+		violations = append(violations, vs...)
+	}
 	coverFail := 0
 	for _, c := range covers {
 		solverSecs += c.Secs
@@ -173,6 +258,7 @@ func report(eng *Engine, prop, tier string, seed int, verif, outDir string, cfg 
 		"undecided_clauses":                       undecidedClauses,
 		"vacuity_covers":                          map[string]int{"checked": len(covers), "contradictory": coverFail},
 		"not_covered":                             cfg.NotCovered,
+		"bounded_standins":                        standinRes,
 		"contract_files":                          eng.contractFiles,
 		"callee_contracts_used":                   sortedKeys(calleeContracts),
 	}
